@@ -268,3 +268,85 @@ func VerifH_AllowCommitUptoStep() {
 	verifrt.Assert(st.commitAllowedUpToTxID <= x || st.commitAllowedUpToTxID == old, "allowance never beyond what was asked")
 	verifrt.Assert(st.committedTxID == f.c, "synced mode: committing is left to the syncer")
 }
+
+// VerifH_PrecommitBufferStep: one operation from an ARBITRARY valid ring state (any capacity
+// `size`, any read/write positions incl. wrapped ones, full or not): the operation behaves as on
+// the FIFO the state represents. Covers every fill level and wrap-around position at once.
+func VerifH_PrecommitBufferStep() {
+	size := verifrt.Param("size")
+	b := newPrecommitBuffer(size)
+	rpos, wpos := verifrt.Int("rpos"), verifrt.Int("wpos")
+	verifrt.Assume(rpos >= 0 && rpos < size && wpos >= 0 && wpos < size)
+	full := verifrt.Bool("full")
+	verifrt.Assume(!full || rpos == wpos) // representation invariant
+	b.rpos, b.wpos, b.full = rpos, wpos, full
+	for i := range b.buf {
+		b.buf[i].txID, b.buf[i].alh = verifrt.U64("slot.txID"), verifrt.Digest("slot.alh")
+	}
+	// abstraction: the FIFO content is the slots rpos+1 .. wpos (cyclically), `size` of them if full
+	count := (wpos - rpos + size) % size
+	if full {
+		count = size
+	}
+	var model []verifPE
+	for k := 0; k < count; k++ {
+		e := b.buf[(rpos+1+k)%size]
+		model = append(model, verifPE{txID: e.txID, alh: e.alh})
+	}
+	verifrt.Assert(size-b.freeSlots() == count, "occupancy of the state")
+
+	switch verifrt.Param("op") {
+	case 0: // put
+		e := verifPE{txID: verifrt.U64("txID"), alh: verifrt.Digest("alh")}
+		err := b.put(e.txID, e.alh, 7, 9)
+		if count == size {
+			verifrt.Assert(err != nil, "put on a full buffer is refused")
+		} else {
+			verifrt.Assert(err == nil, "put on a non-full buffer succeeds")
+			model = append(model, e)
+		}
+	case 1: // advanceReader(n)
+		n := verifrt.Int("n")
+		verifrt.Assume(n >= -1 && n <= size+1)
+		err := b.advanceReader(n)
+		if n <= 0 || n > count {
+			verifrt.Assert(err != nil, "advanceReader beyond the content is refused")
+		} else {
+			verifrt.Assert(err == nil, "advanceReader inside the content succeeds")
+			for k := 1; k <= count; k++ {
+				if k == n {
+					model = model[k:]
+					break
+				}
+			}
+		}
+	case 2: // recedeWriter(n)
+		n := verifrt.Int("n")
+		verifrt.Assume(n >= -1 && n <= size+1)
+		err := b.recedeWriter(n)
+		if n <= 0 || n > count {
+			verifrt.Assert(err != nil, "recedeWriter beyond the content is refused")
+		} else {
+			verifrt.Assert(err == nil, "recedeWriter inside the content succeeds")
+			for k := 1; k <= count; k++ {
+				if k == n {
+					model = model[:len(model)-k]
+					break
+				}
+			}
+		}
+	case 3: // grow
+		ns := verifrt.Int("newSize")
+		verifrt.Assume(ns >= 0 && ns <= size+2)
+		b.grow(ns)
+	}
+	verifrt.Reach("stepped")
+	verifrt.Assert(len(b.buf)-b.freeSlots() == len(model), "occupancy equals the model length")
+	verifrt.Assert(!b.full || b.rpos == b.wpos, "representation invariant preserved")
+	for k := range model {
+		txID, alh, _, _, err := b.readAhead(k)
+		verifrt.Assert(err == nil && txID == model[k].txID && alh == model[k].alh, "content equals the model in FIFO order")
+	}
+	_, _, _, _, err := b.readAhead(len(model))
+	verifrt.Assert(err != nil, "reading past the content is refused")
+}
